@@ -4,7 +4,9 @@ import (
 	"encoding/json"
 	"fmt"
 	"os"
+	"path/filepath"
 	"runtime"
+	"runtime/coverage"
 	"testing"
 	"testing/synctest"
 	"time"
@@ -53,8 +55,53 @@ func TestSim(t *testing.T) {
 			os.Stdout.Write(out)
 			os.Stdout.Write([]byte("\n"))
 		}
+		dumpCoverage()
 		// parked goroutines of an aborted run would make the bubble's exit
 		// panic; the result is already written
 		os.Exit(0)
 	})
+}
+
+// dumpCoverage writes the statement counters of a coverage build (buildsim.sh
+// ... cover; ./covreport.sh) into VSIM_COVDIR. One run = one process, and the
+// run ends with os.Exit inside the bubble, so the testing package never gets to
+// write a profile itself. The clock in the bubble is fake and process ids
+// repeat: the counter file is renamed to carry the run's own identity.
+func dumpCoverage() {
+	dir := os.Getenv("VSIM_COVDIR")
+	if dir == "" {
+		return
+	}
+	tmp, err := os.MkdirTemp(dir, "w")
+	if err != nil {
+		return
+	}
+	defer os.RemoveAll(tmp)
+	if err := coverage.WriteMetaDir(tmp); err != nil {
+		os.WriteFile(filepath.Join(dir, "error.txt"), []byte(err.Error()), 0644)
+		return
+	}
+	if err := coverage.WriteCountersDir(tmp); err != nil {
+		os.WriteFile(filepath.Join(dir, "error.txt"), []byte(err.Error()), 0644)
+		return
+	}
+	ents, _ := os.ReadDir(tmp)
+	for _, e := range ents {
+		n := e.Name()
+		if len(n) > 8 && n[:8] == "covmeta." {
+			if _, err := os.Stat(filepath.Join(dir, n)); err != nil {
+				os.Rename(filepath.Join(tmp, n), filepath.Join(dir, n))
+			}
+		} else if len(n) > 12 && n[:12] == "covcounters." {
+			// covcounters.<metahash>.<pid>.<nanotime>
+			var hash string
+			for i := 12; i < len(n); i++ {
+				if n[i] == '.' {
+					hash = n[12:i]
+					break
+				}
+			}
+			os.Rename(filepath.Join(tmp, n), filepath.Join(dir, fmt.Sprintf("covcounters.%s.%d.%s", hash, os.Getpid(), filepath.Base(tmp)[1:])))
+		}
+	}
 }
